@@ -4,7 +4,8 @@
    Transcribed (as they are after the fix: commits of branch verif-C10):
      mptcore/config/path_set.c path_next.c path_last.c path_add.c path_del.c
      mptcore/config/node_query.c node_assign.c config_global.c config_set.c config_get.c
-     mptcore/config/config_item_query.c config_item_reserve.c, mpt++/config.cpp (config::root)
+     mptcore/config/config_item_query.c config_item_reserve.c, mpt++/config.cpp (config::root, the
+       wrappers config::set / get / del, path::clear_data; at the end of this file)
      mptcore/node/node_locate.c (forward search, default charset), mptcore/meta/meta_set.c meta_new.c
 
    Conventions: bytes are [N]; offsets and lengths are [nat]; the 8-bit [first]
@@ -810,13 +811,25 @@ Fixpoint rrun (a : list item) (ops : list rop) : list cout * list item :=
   | o :: r => let '(a', out) := rstep a o in let '(outs, af) := rrun a' r in (out :: outs, af)
   end.
 
+(* mpt_path_invalidate() (cxx = false) / mpt::path::clear_data() (cxx = true): the post
+   data behind the path is dropped; the C function also clears KeepPost, the C++ method
+   only cuts the array (content::set_length) *)
+Definition path_clear (cxx : bool) (p : path) : cres path :=
+  if parr p then
+    if length (pbase p) <? poff p + plen p then Fail BadValue
+    else Done (mkpath (firstn (poff p + plen p) (pbase p)) (poff p) (plen p) (pfirst p)
+                      (pbin p) (parr p) (if cxx then pkeep p else false) (psep p) (passign p))
+  else Done p.
+
 (* ------------------------------------------------------------ path histories *)
 Inductive pop :=
 | PSet (s : option (list byte)) (len : option nat)   (* the string lives in a buffer of its bytes + NUL *)
 | PNext | PLast | PDel
 | PAdd (n : nat)
 | PPost (d : list byte)
-| PBin.                                              (* path.flags |= SepBinary *)
+| PBin                                               (* path.flags |= SepBinary *)
+| PClear (cxx : bool)                                (* mpt_path_invalidate / path::clear_data *)
+| PCopy.                                             (* mpt::path copy construction / assignment: the copy is used from here on *)
 
 Inductive pret := RNum (n : nat) | RErr (e : err) | RFault | RFuel.
 
@@ -838,6 +851,255 @@ Definition pstep (p : path) (o : pop) : path * pret :=
   | PAdd n => pwrap p (let* p' := path_add p n in Done (0, p'))
   | PPost d => (path_post p d, RNum 0)
   | PBin => (mkpath (pbase p) (poff p) (plen p) (pfirst p) true (parr p) (pkeep p) (psep p) (passign p), RNum 0)
+  | PClear cxx => pwrap p (let* p' := path_clear cxx p in Done (0, p'))
+  | PCopy => (p, RNum 0)                             (* memcpy of the struct, one more reference on the array *)
   end.
 
 Definition pwalk (p : path) : cres (list (list byte)) := path_walk (S (plen p)) p.
+
+(* ==========================================================================
+   The interface as callers use it: mptcore/config/config_get.c (mpt_config_query,
+   mpt_config_getp, mpt_config_get), config_set.c (mpt_config_set), the metatype side
+   of config_global.c (conversion to a node pointer, the collection handed to a query
+   handler) and the wrappers of mpt++/config.cpp (config::set / get / del,
+   config::root::query(NULL), config::root::assign(path, NULL), mpt::path::clear_data).
+   All of them are thin compositions of the operations above.
+   ========================================================================== *)
+
+(* requested conversion: type 0 (existence only, no handler), 's', vector of char *)
+Inductive gty := GExist | GStr | GVec.
+(* what mpt_config_getp reports: MissingData / rc >= 0 without data / the text / BadType *)
+Inductive gval := GMissing | GFound | GText (v : value) | GBadType.
+
+(* the C store keeps text of up to 249 bytes in the basic metatype ('s' and vector of
+   char), longer text in a buffer metatype (vector of char and iterator, no 's');
+   the metatypes made by the C++ metatype::create offer both for every length *)
+Definition fits_basic (v : value) : bool :=
+  match geninfo_size (length v + 1) with Some _ => true | None => false end.
+
+Definition value_conv (cxx : bool) (ty : gty) (v : value) : gval :=
+  match ty with
+  | GExist => GFound
+  | GVec => GText v
+  | GStr => if cxx || fits_basic v then GText v else GBadType
+  end.
+
+(* _convert_value of config_get.c applied to what the query found: an element without
+   value is reported as MissingData when a value is asked for *)
+Definition get_view (cxx : bool) (ty : gty) (e : entry) : gval :=
+  match e with
+  | Absent => GMissing
+  | Exists mt =>
+    match ty with
+    | GExist => GFound
+    | _ => match mt with None => GMissing | Some v => value_conv cxx ty v end
+    end
+  end.
+
+(* mpt_config_getp(conf, path, type, ptr) / config::get(path, type, ptr) *)
+Definition cfg_getp (g : list node) (base p : path) (ty : gty) : cres gval :=
+  let* e := cfg_query g base p in Done (get_view false ty e).
+
+(* mpt_config_get(conf, dest, type, ptr): path.sep = '.', path.assign = 0, mpt_path_set(&path, dest, -1) *)
+Definition cfg_get (g : list node) (base : path) (s : option (list byte)) (ty : gty) : cres gval :=
+  let* p := str_path s 46%N 0%N in cfg_getp g base p ty.
+
+(* mpt_config_set(conf, path, val, sep, end) and config::set(path, val, sep) (end = 0):
+   no value = remove *)
+Definition cfg_set (g : list node) (base : path) (s : option (list byte)) (sep en : byte) (v : option value)
+  : cres (list node * rc) :=
+  let* p := str_path s sep en in
+  match v with Some v => cfg_assign g base p v | None => cfg_remove g base p end.
+
+(* the path of config::del(p, sep, len): path::set(p, len, sep, 0); with an explicit
+   length only the first len bytes are looked at *)
+Definition del_path (s : option (list byte)) (sep : byte) (len : option nat) : cres path :=
+  let* (p, _) := path_set (path_init sep 0%N)
+                   (match s with
+                    | None => None
+                    | Some b => Some (match len with None => b ++ [0%N] | Some n => firstn n (b ++ [0%N]) end)
+                    end) len in
+  Done p.
+
+Definition cfg_del (g : list node) (base : path) (s : option (list byte)) (sep : byte) (len : option nat)
+  : cres (list node * rc) :=
+  let* p := del_path s sep len in cfg_remove g base p.
+
+(* configConv(TypeNodePtr): the global configuration has no node, a view gets or creates its base node *)
+Definition cfg_node (g : list node) (base : path) : cres (list node * option trail) :=
+  if plen base =? 0 then Fail BadValue else make_global g base.
+
+(* configRemove(cfg, NULL): a view drops the value of its base element (the element and
+   what is beneath it stay); the global configuration has no element of its own *)
+Definition cfg_unset (g : list node) (base : path) : cres (list node * rc) :=
+  match g with
+  | [] => Done (g, RcRefused)
+  | _ =>
+    if plen base =? 0 then Done (g, RcRefused)
+    else
+      let* (qb, pb) := node_query g base in
+      match qb with
+      | None => Done (g, RcNotFound)
+      | Some tb =>
+        if negb (plen pb =? 0) then Done (g, RcNotFound)
+        else match node_at g tb with
+             | None => MemFault
+             | Some _ => Done (upd_at g tb (fun n => Node (nname' n) None (nkids' n)), RcCleared)
+             end
+      end
+  end.
+
+(* configQuery with a handler that walks the collection (collectionEach): value of
+   the element and the nodes beneath it (the top-level list for the empty path) *)
+Definition cfg_list (g : list node) (base p : path) : cres (option (option value * list node)) :=
+  let* (found, n, mt) :=
+    if plen base =? 0 then Done (true, g, None)
+    else
+      let* (q, pb) := node_query g base in
+      match q with
+      | None => Done (false, [], None)
+      | Some tb =>
+        if negb (plen pb =? 0) then Done (false, [], None)
+        else match node_at g tb with
+             | None => MemFault
+             | Some nd => Done (true, nkids' nd, nval' nd)
+             end
+      end in
+  if negb found then Done None
+  else if plen p =? 0 then Done (Some (mt, n))
+  else
+    let* (q, p') := node_query n p in
+    match q with
+    | None => Done None
+    | Some tr =>
+      if negb (plen p' =? 0) then Done None
+      else match node_at n tr with
+           | None => MemFault
+           | Some nd => Done (Some (nval' nd, nkids' nd))
+           end
+    end.
+
+(* ---- the same for config::root *)
+Definition root_getp (a : list item) (p : path) (ty : gty) : cres gval :=
+  let* e := root_query a p in Done (get_view true ty e).
+
+Definition root_set (a : list item) (s : option (list byte)) (sep : byte) (v : option value)
+  : cres (list item * rc) :=
+  let* p := str_path s sep 0%N in
+  match v with Some v => root_assign a p v | None => root_remove a p end.
+
+Definition root_del (a : list item) (s : option (list byte)) (sep : byte) (len : option nat)
+  : cres (list item * rc) :=
+  let* p := del_path s sep len in root_remove a p.
+
+(* config::root::assign(dest, NULL): the value of an existing element is dropped, the
+   element (and what is beneath it) stays; nothing happens when it does not exist *)
+Definition root_unset (a : list item) (p : path) : cres (list item * rc) :=
+  if plen p =? 0 then Done (a, RcRefused)
+  else
+    let* t := item_query a p in
+    match t with
+    | None => Done (a, RcOk)
+    | Some tr => Done (iupd_at a tr (fun x => Item (iname' x) None (ielems' x)), RcOk)
+    end.
+
+(* config::root::query(dest, handler): dest == NULL hands out the top-level items *)
+Definition root_list (a : list item) (p : option path) : cres (option (option value * list item)) :=
+  match p with
+  | None => Done (Some (None, a))
+  | Some p =>
+    let* t := item_query a p in
+    match t with
+    | None => Done None
+    | Some tr => match item_at a tr with
+                 | None => MemFault
+                 | Some x => Done (Some (ival' x, ielems' x))
+                 end
+    end
+  end.
+
+(* ---- histories over the caller-level interface *)
+Inductive wop :=
+| WVt (o : cop)                                                        (* the plain interface calls *)
+| WSet (base : path) (s : option (list byte)) (sep en : byte) (v : option value)
+| WDel (base : path) (s : option (list byte)) (sep : byte) (len : option nat)
+| WGetp (base p : path) (ty : gty)
+| WGet (base : path) (s : option (list byte)) (ty : gty)
+| WNode (base : path)
+| WUnset (base : path)
+| WList (base p : path).
+
+Inductive wout :=
+| WOut (o : cout)
+| WVal (v : gval)
+| WNodeAt (t : option trail)                      (* node handed out (None: refused) *)
+| WListing (l : option (option value * list node)).
+
+Definition wlift {A} (g : list node) (r : cres A) (k : A -> list node * wout) : list node * wout :=
+  match r with
+  | Done a => k a
+  | Fail _ => (g, WOut (OutRc RcRefused))
+  | MemFault => (g, WOut OutFault)
+  | OutOfFuel => (g, WOut OutFuel)
+  end.
+
+Definition wstep (g : list node) (o : wop) : list node * wout :=
+  match o with
+  | WVt c => let '(g', out) := cstep g c in (g', WOut out)
+  | WSet b s sep en v => wlift g (cfg_set g b s sep en v) (fun '(g', r) => (g', WOut (OutRc r)))
+  | WDel b s sep len => wlift g (cfg_del g b s sep len) (fun '(g', r) => (g', WOut (OutRc r)))
+  | WGetp b p ty => wlift g (cfg_getp g b p ty) (fun v => (g, WVal v))
+  | WGet b s ty => wlift g (cfg_get g b s ty) (fun v => (g, WVal v))
+  | WNode b =>
+    match cfg_node g b with
+    | Done (g', t) => (g', WNodeAt t)
+    | Fail _ => (g, WNodeAt None)
+    | MemFault => (g, WOut OutFault)
+    | OutOfFuel => (g, WOut OutFuel)
+    end
+  | WUnset b => wlift g (cfg_unset g b) (fun '(g', r) => (g', WOut (OutRc r)))
+  | WList b p => wlift g (cfg_list g b p) (fun l => (g, WListing l))
+  end.
+
+Fixpoint wrun (g : list node) (ops : list wop) : list wout * list node :=
+  match ops with
+  | [] => ([], g)
+  | o :: r => let '(g', out) := wstep g o in let '(outs, gf) := wrun g' r in (out :: outs, gf)
+  end.
+
+Inductive xop :=
+| XVt (o : rop)
+| XSet (s : option (list byte)) (sep : byte) (v : option value)
+| XDel (s : option (list byte)) (sep : byte) (len : option nat)
+| XGetp (p : path) (ty : gty)
+| XUnset (p : path)
+| XList (p : option path).
+
+Inductive xout :=
+| XOut (o : cout)
+| XVal (v : gval)
+| XListing (l : option (option value * list item)).
+
+Definition xlift {A} (a : list item) (r : cres A) (k : A -> list item * xout) : list item * xout :=
+  match r with
+  | Done x => k x
+  | Fail _ => (a, XOut (OutRc RcRefused))
+  | MemFault => (a, XOut OutFault)
+  | OutOfFuel => (a, XOut OutFuel)
+  end.
+
+Definition xstep (a : list item) (o : xop) : list item * xout :=
+  match o with
+  | XVt r => let '(a', out) := rstep a r in (a', XOut out)
+  | XSet s sep v => xlift a (root_set a s sep v) (fun '(a', r) => (a', XOut (OutRc r)))
+  | XDel s sep len => xlift a (root_del a s sep len) (fun '(a', r) => (a', XOut (OutRc r)))
+  | XGetp p ty => xlift a (root_getp a p ty) (fun v => (a, XVal v))
+  | XUnset p => xlift a (root_unset a p) (fun '(a', r) => (a', XOut (OutRc r)))
+  | XList p => xlift a (root_list a p) (fun l => (a, XListing l))
+  end.
+
+Fixpoint xrun (a : list item) (ops : list xop) : list xout * list item :=
+  match ops with
+  | [] => ([], a)
+  | o :: r => let '(a', out) := xstep a o in let '(outs, af) := xrun a' r in (out :: outs, af)
+  end.
